@@ -364,6 +364,70 @@ func checkC03(e *Engine, r *Report) {
 			r.Check("R2:admission-guard@"+t.fn.Name()+"#"+t.name, "R2 admission guards", what, e.InstrPos(in), t.fn, p == nil && hasTest, w, true)
 		})
 		r.MinInstances("increments of "+t.f.Name()+" in "+t.fn.Name(), n, 1)
+		// freshness: the capacity compared in a guard is read after every change this function makes to the supply
+		// (CPUs sliced off a set through its address, a store to a supply field) that precedes the comparison
+		{
+			supplyT := e.Named(pkgTA, "supply")
+			isSupplyFieldAddr := func(v ssa.Value) bool {
+				fa, ok := v.(*ssa.FieldAddr)
+				if !ok {
+					return false
+				}
+				pt, ok := fa.X.Type().Underlying().(*types.Pointer)
+				return ok && supplyT != nil && types.Identical(pt.Elem(), supplyT)
+			}
+			var writers []ssa.Instruction
+			AllInstrs(t.fn, func(in ssa.Instruction) {
+				switch x := in.(type) {
+				case *ssa.Store:
+					if isSupplyFieldAddr(x.Addr) {
+						writers = append(writers, in)
+					}
+				case *ssa.Call:
+					for _, a := range x.Common().Args {
+						if isSupplyFieldAddr(a) {
+							writers = append(writers, in)
+							break
+						}
+					}
+				}
+			})
+			nCmp := 0
+			AllInstrs(t.fn, func(in ssa.Instruction) {
+				b, ok := in.(*ssa.BinOp)
+				if !ok {
+					return
+				}
+				switch b.Op {
+				case token.LSS, token.LEQ, token.GTR, token.GEQ:
+				default:
+					return
+				}
+				for _, opd := range []ssa.Value{b.X, b.Y} {
+					call, ok := unspill(opd).(*ssa.Call)
+					if !ok || !e.IsCallTo(call, fset(t.alloc)) {
+						continue
+					}
+					stale := ""
+					for _, w := range writers {
+						w := w
+						if w == ssa.Instruction(call) {
+							continue
+						}
+						p1 := FindPath(PathQuery{Fn: t.fn, From: call, Target: func(x ssa.Instruction) bool { return x == w }})
+						if p1 == nil {
+							continue
+						}
+						if p2 := FindPath(PathQuery{Fn: t.fn, From: w, Target: func(x ssa.Instruction) bool { return x == in }}); p2 != nil {
+							stale = "the supply is changed at " + e.InstrPos(w) + " between the read at " + e.InstrPos(call) + " and the comparison"
+						}
+					}
+					nCmp++
+					r.Check(fmt.Sprintf("R2:admission-guard-fresh@%s#%s#%d", t.fn.Name(), t.name, nCmp), "R2 admission guards",
+						"the Allocatable"+map[string]string{"shared": "Shared", "reserved": "Reserved"}[t.name]+"CPU() value a guard of "+t.fn.Name()+" compares was read after every earlier change the function makes to the supply", e.InstrPos(in), t.fn, stale == "", stale, true)
+				}
+			})
+		}
 	}
 	// a reserved-class request never gets exclusive CPUs: its whole-CPU part is served as a fraction of the reserved pool.
 	// Decided by path search under "the request's class is cpuReserved", for a positive and for a zero whole-CPU part,
